@@ -419,3 +419,30 @@ Proof.
   rewrite E in Hr. discriminate.
 Qed.
 Print Assumptions render_total_needs_alignments_refuted.
+
+(* ---------------------------------------------------------------------------------------------------------
+   The recorded finding, formally (known_findings.json, class tagged-cell-wrapped).  The theorems above stop where a cell
+   holding '<' has to be wrapped: render_table_f answers Err (Other 20).  What the code does there is the third layer of
+   Model/Table.v, render_table_r: CellWrapper._wrap_column hands the RAW cell to textwrap and measures with the formatter; no
+   theorem is claimed for it - it is compared with the code on every such table of every run - and the property fails on it:
+   the one cell  <b>bold</b>  1,5  (good markup: good_cell) in an ascii table on a terminal of 9 columns, 5 for the cell,
+   inside the guard.  textwrap cuts the raw text into  <b>bo / ld</b / > / 1,5 : the opening tag is read three times (cell,
+   wrapped cell, line), the closing one is cut and shown as text - the cell's text does not come back, and the style is left
+   open (three times) on the output's formatter. *)
+Definition c_bold15 : str := ([60;98;62;98;111;108;100;60;47;98;62;32;32;49;44;53]%N) (* <b>bold</b>  1,5 *).
+Example tagged_cell_wrapped_refuted :
+  good_cell (fmt_of FPlain) (t_rstrip c_bold15) /\ 1 <= available_width ascii_style 9 0 1 /\
+  render_table_f share_exact false (fmt_of FPlain) ascii_style 1 [] [[c_bold15]] 9 0 = Err (Other 20) /\
+  (exists f' st, render_table_r share_exact false (fmt_of FPlain) ascii_style 1 [] [[c_bold15]] 9 0
+     = Ok (f', (st, ([43;45;45;45;45;45;45;45;43;10; 124;32;98;111;32;32;32;32;124;10; 124;32;108;100;60;47;98;32;124;10; 124;32;62;32;32;32;32;32;124;10;
+                     124;32;49;44;53;32;32;32;124;10; 43;45;45;45;45;45;45;45;43;10]%N)
+                    (* +-------+ / | bo    | / | ld</b | / | >     | / | 1,5   | / +-------+ *)))
+     /\ f_rows st = [[[60;98;62;98;111;10;108;100;60;47;98;10;62;10;49;44;53]%N]] /\ f_cols st = [5]
+     /\ length (f_stack f') = 3%nat /\ f_stack (fmt_of FPlain) = []).
+Proof.
+  split.
+  { split; [vm_compute; all_chars|]. split; [intros _ H; vm_compute in H; repeat (destruct H as [H|H]; [discriminate|]); exact H|].
+    exists ([98;111;108;100;32;32;49;44;53]%N). split; [vm_compute; reflexivity|all_chars]. }
+  split; [vm_compute; congruence|]. split; [vm_compute; reflexivity|].
+  eexists; eexists. split; [vm_compute; reflexivity|]. repeat split; vm_compute; reflexivity.
+Qed.
